@@ -27,10 +27,6 @@ pub mod vx_ids {
 /*@include units/ids_common/spec.rs @*/
 
     impl<T: Merge> IdRanges<T> {
-        pub closed spec fn view(&self) -> Seq<Ent<T>> {
-            self.0@
-        }
-
         /*@extract yrs/src/ids.rs | impl<T: Merge> IdRanges<T> | fn len
         @ret r
         @sig
@@ -107,6 +103,43 @@ pub mod vx_ids {
                     }
                 }
             }
+        @*/
+
+        /*@extract yrs/src/ids.rs | impl<T: Merge> IdRanges<T> | fn find_start
+        @ret r
+        @sig
+            requires canon(self@),
+            ensures
+                // the least index whose entry ends after `clock` (i.e. contains it or starts after it)
+                r.is_none() ==> forall|i: int| 0 <= i < self@.len() ==> (#[trigger] self@[i]).0.end <= clock,
+                r.is_some() ==> r.unwrap() < self@.len() && clock < self@[r.unwrap() as int].0.end
+                    && forall|i: int| 0 <= i < r.unwrap() ==> (#[trigger] self@[i]).0.end <= clock,
+                @loop 1
+            decreases right + 1 - left,
+        @*/
+
+        /*@extract yrs/src/ids.rs | impl<T: Merge> IdRanges<T> | fn remove
+        @sig
+            requires canon(old(self)@),
+            ensures
+                canon(final(self)@),
+                forall|c: int| covers(final(self)@, c) <==> covers(old(self)@, c) && !inr(range, c),
+                forall|c: int| covers(final(self)@, c) ==> val_at(final(self)@, c) == val_at(old(self)@, c),
+                @loop 1
+            decreases self.0.len() - j,
+        @*/
+
+        /*@extract yrs/src/ids.rs | impl<T: Merge> IdRanges<T> | fn insert_with
+        @sig
+            requires canon(old(self)@), value.wf(),
+            ensures
+                canon(final(self)@),
+                forall|c: int| covers(final(self)@, c) <==> covers(old(self)@, c) || inr(range, c),
+                forall|c: int| covers(old(self)@, c) && !inr(range, c) ==> #[trigger] val_at(final(self)@, c).eq_spec(&val_at(old(self)@, c)),
+                forall|c: int| !covers(old(self)@, c) && inr(range, c) ==> #[trigger] val_at(final(self)@, c).eq_spec(&value),
+                forall|c: int| covers(old(self)@, c) && inr(range, c) ==> #[trigger] val_at(final(self)@, c).eq_spec(&val_at(old(self)@, c).merge_spec(&value)),
+                @loop 1
+            decreases self.0.len() - hi,
         @*/
     }
 }
